@@ -212,9 +212,17 @@ class HamiltonianChain(MarkovChain):
         p = self.posterior(t) * self.inv_temp
         G = zeros(self.n_parameters)
         for i in range(self.n_parameters):
-            delta = zeros(self.n_parameters) + 1
-            delta[i] += 1e-5
-            G[i] = (self.posterior(t * delta) * self.inv_temp - p) / (t[i] * 1e-5)
+            # relative step, falling back to an absolute one at zero-valued coordinates
+            h = 1e-5 * abs(t[i]) if t[i] != 0 else 1e-5
+            if self.bounds is not None:
+                # stay inside the allowed region: never step further than half its width,
+                # and step backwards if a forward step would leave it
+                h = min(h, 0.5 * self.bounds.width[i])
+                if t[i] + h > self.bounds.upper[i]:
+                    h = -h
+            t_step = t.copy()
+            t_step[i] += h
+            G[i] = (self.posterior(t_step) * self.inv_temp - p) / h
         return G
 
     def get_last(self) -> ndarray:
